@@ -1,7 +1,7 @@
 // C09 harness: drives the loser tree classes of tlx/container/loser_tree.hpp through the caller protocol of the
 // model (coq/C09/LoserTree.v [drive], coq/C09/Spec.v [drive_g]) and prints the sequence of min_source() values.
 //
-// Case line:  <class>[:<elem>:<cmp>:<via>] <sentinel> <seq> <seq> ...     with <seq> = "-" (empty) or "k,k,k"
+// Case line:  <class>[:<elem>:<cmp>:<via>[:<store>]] <sentinel> <seq> <seq> ...     with <seq> = "-" (empty) or "k,k,k"
 //   <class> = <P|C><G|U|V><S|N>   pointer/copy, guarded/unguarded/unguarded-any-keys, stable/unstable
 //             (V: keys may exceed the sentinel, the tree is consulted only while some current key beats it, as
 //              multiway_merge_loser_tree_combined does)
@@ -12,6 +12,12 @@
 //             std::less<ValueType> and the constructor's default comparator argument
 //   <via>   = d | s | m                   class named directly / through the tlx::LoserTree<> or tlx::LoserTreeUnguarded<>
 //             switch alias (the P|C letter is then only a hint) / directly and then move-constructed (PG classes)
+//   <store> = p | l | t                   where the keys handed to insert_start / delete_min_insert live:
+//             p = each key in its own storage (pointers into the sequences, as multiway_merge does; default);
+//             l = ONE slot per player: the winner's next key is written into its slot and the same address is passed again
+//                 (a caller feeding from streams; legitimate for all classes, the pointer classes keep &slot[i]);
+//             t = a heap temporary that is freed right after the call (copy classes only: they must have copied the key;
+//                 a retained pointer is a heap-use-after-free under ASan)
 // Output: one line per case, sources separated by blanks, invalid_ printed as "-"; "?..." for a malformed case.
 #include <tlx/container/loser_tree.hpp>
 
@@ -92,17 +98,40 @@ struct Stateful {
     }
 };
 
+// ------------------------------------------------------------------------------------------------ key storage
+template <typename T>
+struct Feed {
+    char store;
+    const std::vector<std::vector<T> >& seqs;
+    std::vector<T> slots;
+    T* tmp = nullptr;
+    Feed(char st, const std::vector<std::vector<T> >& sq) : store(st), seqs(sq), slots(sq.size()) {}
+    Feed(const Feed&) = delete;
+    ~Feed() { delete tmp; }
+    //! address to hand to the tree for player i's key number pos
+    const T* key(size_t i, size_t pos) {
+        if (store == 'l') { slots[i] = seqs[i][pos]; return &slots[i]; }
+        if (store == 't') { delete tmp; tmp = new T(seqs[i][pos]); return tmp; }
+        return &seqs[i][pos];
+    }
+    //! after the call returned: the temporary dies
+    void done() { if (store == 't') { delete tmp; tmp = nullptr; } }
+};
+
 // ------------------------------------------------------------------------------------------------ caller loops
 template <typename LT, typename T>
-static void drive(LT& lt, const std::vector<std::vector<T> >& seqs, bool guarded, std::string& out) {
+static void drive(LT& lt, const std::vector<std::vector<T> >& seqs, bool guarded, char store, std::string& out) {
     using Source = typename LT::Source;
     const Source k = static_cast<Source>(seqs.size());
     std::vector<size_t> pos(k, 0);
+    Feed<T> feed(store, seqs);
     for (Source i = 0; i < k; ++i) {
         if (seqs[i].empty())
             lt.insert_start(nullptr, i, true);
-        else
-            lt.insert_start(&seqs[i][0], i, false);
+        else {
+            lt.insert_start(feed.key(i, 0), i, false);
+            feed.done();
+        }
     }
     lt.init();
     for (;;) {
@@ -111,8 +140,10 @@ static void drive(LT& lt, const std::vector<std::vector<T> >& seqs, bool guarded
         if (s == LT::invalid_) out += '-'; else out += std::to_string(s);
         if (s >= k || pos[s] >= seqs[s].size()) break;   // reported player has no current key
         ++pos[s];
-        if (pos[s] < seqs[s].size())
-            lt.delete_min_insert(&seqs[s][pos[s]], false);
+        if (pos[s] < seqs[s].size()) {
+            lt.delete_min_insert(feed.key(s, pos[s]), false);
+            feed.done();
+        }
         else if (guarded)
             lt.delete_min_insert(nullptr, true);
         else
@@ -123,11 +154,12 @@ static void drive(LT& lt, const std::vector<std::vector<T> >& seqs, bool guarded
 // unguarded tree, arbitrary keys: stop as soon as no current key beats the sentinel
 template <typename LT, typename T, typename Cmp>
 static void drive_general(LT& lt, const std::vector<std::vector<T> >& seqs, const T& sentinel, const Cmp& less,
-                          bool stable, std::string& out) {
+                          bool stable, char store, std::string& out) {
     using Source = typename LT::Source;
     const Source k = static_cast<Source>(seqs.size());
     std::vector<size_t> pos(k, 0);
-    for (Source i = 0; i < k; ++i) lt.insert_start(&seqs[i][0], i, false);
+    Feed<T> feed(store, seqs);
+    for (Source i = 0; i < k; ++i) { lt.insert_start(feed.key(i, 0), i, false); feed.done(); }
     lt.init();
     for (;;) {
         bool any = false;
@@ -142,8 +174,10 @@ static void drive_general(LT& lt, const std::vector<std::vector<T> >& seqs, cons
         if (s == LT::invalid_) out += '-'; else out += std::to_string(s);
         if (s >= k || pos[s] >= seqs[s].size()) break;
         ++pos[s];
-        if (pos[s] < seqs[s].size())
-            lt.delete_min_insert(&seqs[s][pos[s]], false);
+        if (pos[s] < seqs[s].size()) {
+            lt.delete_min_insert(feed.key(s, pos[s]), false);
+            feed.done();
+        }
         else
             break;
     }
@@ -154,6 +188,7 @@ struct Flavor {
     bool stable;
     bool pass_cmp;   // false: rely on the constructor's default comparator argument
     char via;        // d, s, m
+    char store;      // p, l, t
 };
 
 template <typename LT, typename T, typename Cmp>
@@ -164,14 +199,14 @@ static void run_guarded(const std::vector<std::vector<T> >& seqs, const Cmp& cmp
         if constexpr (std::is_move_constructible<LT>::value) {
             LT lt0 = f.pass_cmp ? LT(k, cmp) : LT(k);
             LT lt(std::move(lt0));
-            drive(lt, seqs, true, out);
+            drive(lt, seqs, true, f.store, out);
         } else {
             out = "?not-movable";
         }
         return;
     }
-    if (f.pass_cmp) { LT lt(k, cmp); drive(lt, seqs, true, out); }
-    else { LT lt(k); drive(lt, seqs, true, out); }
+    if (f.pass_cmp) { LT lt(k, cmp); drive(lt, seqs, true, f.store, out); }
+    else { LT lt(k); drive(lt, seqs, true, f.store, out); }
 }
 
 template <typename LT, typename T, typename Cmp>
@@ -181,10 +216,10 @@ static void run_unguarded(const std::vector<std::vector<T> >& seqs, const T& sen
     const Source k = static_cast<Source>(seqs.size());
     if (f.pass_cmp) {
         LT lt(k, sentinel, cmp);
-        if (f.mode == 'V') drive_general(lt, seqs, sentinel, cmp, f.stable, out); else drive(lt, seqs, false, out);
+        if (f.mode == 'V') drive_general(lt, seqs, sentinel, cmp, f.stable, f.store, out); else drive(lt, seqs, false, f.store, out);
     } else {
         LT lt(k, sentinel);
-        if (f.mode == 'V') drive_general(lt, seqs, sentinel, cmp, f.stable, out); else drive(lt, seqs, false, out);
+        if (f.mode == 'V') drive_general(lt, seqs, sentinel, cmp, f.stable, f.store, out); else drive(lt, seqs, false, f.store, out);
     }
 }
 
@@ -254,14 +289,15 @@ int main(int argc, char** argv) {
             std::string p;
             while (std::getline(hs, p, ':')) parts.push_back(p);
         }
-        if (parts.empty() || parts[0].size() != 3 || (parts.size() != 1 && parts.size() != 4)) {
+        if (parts.empty() || parts[0].size() != 3 || (parts.size() != 1 && parts.size() != 4 && parts.size() != 5)) {
             std::cout << "?" << std::endl;
             continue;
         }
         const std::string vs = parts[0];
-        const std::string elem = parts.size() == 4 ? parts[1] : "e8";
-        const std::string cmp = parts.size() == 4 ? parts[2] : "lt";
-        const std::string via = parts.size() == 4 ? parts[3] : "d";
+        const std::string elem = parts.size() >= 4 ? parts[1] : "e8";
+        const std::string cmp = parts.size() >= 4 ? parts[2] : "lt";
+        const std::string via = parts.size() >= 4 ? parts[3] : "d";
+        const std::string store = parts.size() == 5 ? parts[4] : "p";
         std::vector<std::vector<long> > keys;
         while (ls >> tok) {
             std::vector<long> s;
@@ -274,10 +310,11 @@ int main(int argc, char** argv) {
         }
         std::string out;
         const bool P = vs[0] == 'P';
-        Flavor f{ vs[1], vs[2] == 'S', true, via.empty() ? 'd' : via[0] };
+        Flavor f{ vs[1], vs[2] == 'S', true, via.empty() ? 'd' : via[0], store.empty() ? 'p' : store[0] };
         if (keys.empty() || (vs[0] != 'P' && vs[0] != 'C') || (f.mode != 'G' && f.mode != 'U' && f.mode != 'V') ||
             (vs[2] != 'S' && vs[2] != 'N') || (f.via != 'd' && f.via != 's' && f.via != 'm') ||
-            (f.via == 'm' && f.mode != 'G')) {
+            (f.via == 'm' && f.mode != 'G') || (f.store != 'p' && f.store != 'l' && f.store != 't') ||
+            (f.store == 't' && P && f.via != 's')) {
             std::cout << "?" << std::endl;
             continue;
         }
